@@ -69,6 +69,19 @@ Named ==
      [x |-> <<47,47,113,58,98>>,                           allow |-> "any",          d |-> 3],   \* //q:b  (unbound prefix)
      [x |-> <<113,58,102,40,41>>,                          allow |-> "any",          d |-> 1],   \* q:f()
      [x |-> <<110,97,109,101,40,47,47,110,97,109,101,115,112,97,99,101,58,58,42,41>>, allow |-> "any", d |-> 3],  \* name(//namespace::*)
+     [x |-> <<47, 97, 47, 99, 111, 109, 109, 101, 110, 116, 40, 39, 120, 39, 41>>, allow |-> "any", d |-> 1],   \* /a/comment('x')
+     [x |-> <<47, 47, 116, 101, 120, 116, 40, 34, 116, 34, 41>>, allow |-> "any", d |-> 1],   \* //text("t")
+     [x |-> <<47, 97, 47, 110, 111, 100, 101, 40, 32, 39, 97, 39, 32, 41>>, allow |-> "any", d |-> 1],   \* /a/node( 'a' )
+     [x |-> <<99, 111, 109, 109, 101, 110, 116, 40, 39, 39, 41>>, allow |-> "any", d |-> 1],   \* comment('')
+     [x |-> <<115, 117, 98, 115, 116, 114, 105, 110, 103, 40, 39, 49, 50, 51, 52, 53, 39, 44, 32, 52, 44, 32, 45, 50, 41>>, allow |-> "any", d |-> 1],   \* substring('12345', 4, -2)
+     [x |-> <<115, 117, 98, 115, 116, 114, 105, 110, 103, 40, 47, 97, 44, 32, 51, 44, 32, 45, 49, 32, 100, 105, 118, 32, 48, 41>>, allow |-> "any", d |-> 1],   \* substring(/a, 3, -1 div 0)
+     [x |-> <<115, 117, 98, 115, 116, 114, 105, 110, 103, 40, 39, 49, 50, 51, 52, 53, 39, 44, 32, 50, 44, 32, 45, 49, 41>>, allow |-> "any", d |-> 1],   \* substring('12345', 2, -1)
+     [x |-> <<115, 117, 98, 115, 116, 114, 105, 110, 103, 40, 39, 49, 50, 51, 52, 53, 39, 44, 32, 49, 32, 100, 105, 118, 32, 48, 44, 32, 45, 49, 32, 100, 105, 118, 32, 48, 41>>, allow |-> "any", d |-> 1],   \* substring('12345', 1 div 0, -1 div 0)
+     [x |-> <<115, 117, 98, 115, 116, 114, 105, 110, 103, 40, 39, 49, 50, 51, 52, 53, 39, 44, 32, 45, 49, 32, 100, 105, 118, 32, 48, 44, 32, 49, 32, 100, 105, 118, 32, 48, 41>>, allow |-> "any", d |-> 1],   \* substring('12345', -1 div 0, 1 div 0)
+     [x |-> <<115, 117, 98, 115, 116, 114, 105, 110, 103, 40, 39, 49, 50, 51, 52, 53, 39, 44, 32, 53, 44, 32, 45, 53, 41>>, allow |-> "any", d |-> 1],   \* substring('12345', 5, -5)
+     [x |-> <<115, 117, 98, 115, 116, 114, 105, 110, 103, 40, 39, 26085, 26412, 35486, 39, 44, 32, 51, 44, 32, 45, 49, 41>>, allow |-> "any", d |-> 1],   \* substring('日本語', 3, -1)
+     [x |-> <<116, 114, 97, 110, 115, 108, 97, 116, 101, 40, 39, 97, 98, 99, 97, 98, 99, 39, 44, 39, 97, 98, 97, 39, 44, 39, 88, 89, 90, 39, 41>>, allow |-> "any", d |-> 1],   \* translate('abcabc','aba','XYZ')
+     [x |-> <<116, 114, 97, 110, 115, 108, 97, 116, 101, 40, 39, 98, 97, 110, 97, 110, 97, 39, 44, 39, 97, 110, 97, 39, 44, 39, 120, 39, 41>>, allow |-> "any", d |-> 1],   \* translate('banana','ana','x')
      [x |-> <<>>,                                          allow |-> "any",          d |-> 1],   \* empty string
      [x |-> <<47, 47>>,                                    allow |-> "any",          d |-> 1],   \* //
      [x |-> <<49,101,51>>,                                 allow |-> "any",          d |-> 1],   \* 1e3
@@ -81,7 +94,8 @@ vars == cvars
 \* repetition, about 0.1 ms each) only sizes whose linear cost stays far below the 5 s limit of a call
 NestingFamilies == {"parens", "deeppred", "selfpred", "minus", "args", "filters", "parenpath"}
 FlatFamilies == {"preds", "steps", "ors", "unions"}
-Inputs == { [fam |-> f, n |-> n, allow |-> "any"] : f \in FamilyNames, n \in Sizes }
+Inputs == { [fam |-> f, n |-> n, allow |-> "any"] : f \in FamilyNames \ {"prologaxes"}, n \in Sizes }
+          \cup { [fam |-> "prologaxes", n |-> n, allow |-> "any"] : n \in 1..PrologMembers }
           \cup { [fam |-> f, n |-> n, allow |-> "any"] : f \in NestingFamilies, n \in DeepSizes }
           \cup { [fam |-> f, n |-> n, allow |-> "any"] : f \in FlatFamilies, n \in {m \in DeepSizes : m <= 3000} }
           \cup { [fam |-> "named", n |-> k, allow |-> Named[k].allow] : k \in 1..Len(Named) }
@@ -89,7 +103,7 @@ Next == (\E i \in Inputs : Call(i)) \/ (\E e \in BOOLEAN : Return(e)) \/ Error
 Spec == CInit /\ [][Next]_vars
 
 TextOf(i) == IF i.fam = "named" THEN Named[i.n].x ELSE Member(i.fam, i.n)
-DocOf(i)  == IF i.fam = "named" THEN Docs[Named[i.n].d] ELSE IF i.fam = "deepdsteps" THEN DeepDoc ELSE Docs[1]
+DocOf(i)  == IF i.fam = "named" THEN Docs[Named[i.n].d] ELSE IF i.fam = "deepdsteps" THEN DeepDoc ELSE IF i.fam = "prologaxes" THEN PrologDoc ELSE Docs[1]
 
 TypeOk == pc \in {"idle", "called"} /\ result \in {"none", "ok", "err"} /\ input.allow \in Allows
 \* every call can complete, and only by Return or Error
